@@ -920,4 +920,570 @@ theorem readySeq_childCmd {s : Ca} (hu : UsedInv s) {c : Cmd} {evs : List Ev}
       exact ⟨rfl, ready_products _ hg hcur⟩
   | _ => exact absurd hc (by simp)
 
+/-! ## Loops over the classes -/
+
+/-- A loop over the class list that fails as a whole when one class fails. -/
+def forClasses (f : Rcn → Rc → Except Err (List Ev)) : List (Rcn × Rc) → Except Err (List Ev)
+  | [] => .ok []
+  | p :: ps =>
+    match f p.1 p.2 with
+    | .error e => .error e
+    | .ok a =>
+      match forClasses f ps with
+      | .error e => .error e
+      | .ok b => .ok (a ++ b)
+
+/-- If every class's chunk is class-local and ready on the class record, the loop's output is a
+ready sequence – whatever state the classes of the list are found in unchanged. -/
+theorem readySeq_forClasses {f : Rcn → Rc → Except Err (List Ev)}
+    (hf : ∀ r rc evs, f r rc = .ok evs → (∀ e ∈ evs, e.onClass r = true) ∧ RcReadySeq rc evs)
+    {l : List (Rcn × Rc)} {evs : List Ev} {s : Ca} (hnd : (keys l).Nodup)
+    (hl : ∀ p ∈ l, get s.classes p.1 = some p.2) (h : forClasses f l = .ok evs) : ReadySeq s evs := by
+  induction l generalizing s evs with
+  | nil => simp only [forClasses, Except.ok.injEq] at h; subst h; trivial
+  | cons p ps ih =>
+    simp only [forClasses] at h
+    cases hfp : f p.1 p.2 with
+    | error e => simp [hfp] at h
+    | ok a =>
+      simp only [hfp] at h
+      cases hrest : forClasses f ps with
+      | error e => simp [hrest] at h
+      | ok b =>
+        simp only [hrest, Except.ok.injEq] at h; subst h
+        obtain ⟨hon, hrs⟩ := hf p.1 p.2 a hfp
+        have hgp := hl p (List.mem_cons_self ..)
+        refine readySeq_append (readySeq_of_rc hon hgp hrs) ?_
+        intro s' hs'
+        obtain ⟨_, _, _, hframe, _⟩ := applyAll_of_rc hon hgp hs'
+        simp only [keys, List.map_cons, List.nodup_cons] at hnd
+        refine ih hnd.2 ?_ hrest
+        intro q hq
+        have hne : q.1 ≠ p.1 := by
+          intro he
+          exact hnd.1 (he ▸ List.mem_map.mpr ⟨q, hq, rfl⟩)
+        rw [hframe q.1 hne]
+        exact hl q (List.mem_cons_of_mem _ hq)
+
+/-- `append_keyroll_initiate` for one class, with the input checks of the model. -/
+def initClass (fresh : AMap Rcn KeyId) (r : Rcn) (rc : Rc) : Except Err (List Ev) :=
+  match rc.keys with
+  | .active c =>
+    match get fresh r with
+    | none => .error .badFreshKey
+    | some k => if k = c.id then .error .badFreshKey else .ok ((rc.keys.keyrollInitiate k).map (.key r))
+  | _ => .ok []
+
+theorem keyrollInitLoop_eq (fresh : AMap Rcn KeyId) (l : List (Rcn × Rc)) :
+    keyrollInitLoop fresh l = forClasses (initClass fresh) l := by
+  induction l with
+  | nil => rfl
+  | cons p ps ih =>
+    simp only [keyrollInitLoop, forClasses, initClass]
+    cases hk : p.2.keys with
+    | active c =>
+      simp only
+      cases hf : get fresh p.1 with
+      | none => rfl
+      | some k =>
+        simp only
+        by_cases hkc : k = c.id
+        · simp [hkc]
+        · simp only [hkc, if_false, ih]; rfl
+    | pending _ => simp only [List.nil_append]; rw [ih]; cases forClasses (initClass fresh) ps <;> rfl
+    | rollPending _ _ => simp only [List.nil_append]; rw [ih]; cases forClasses (initClass fresh) ps <;> rfl
+    | rollNew _ _ => simp only [List.nil_append]; rw [ih]; cases forClasses (initClass fresh) ps <;> rfl
+    | rollOld _ _ => simp only [List.nil_append]; rw [ih]; cases forClasses (initClass fresh) ps <;> rfl
+
+theorem initClass_ready (fresh : AMap Rcn KeyId) (r : Rcn) (rc : Rc) (evs : List Ev)
+    (h : initClass fresh r rc = .ok evs) : (∀ e ∈ evs, e.onClass r = true) ∧ RcReadySeq rc evs := by
+  unfold initClass at h
+  cases hk : rc.keys with
+  | active c =>
+    simp only [hk] at h
+    cases hf : get fresh r with
+    | none => simp [hf] at h
+    | some k =>
+      simp only [hf] at h
+      by_cases hkc : k = c.id
+      · simp [hkc] at h
+      · simp only [hkc, if_false, Except.ok.injEq, KeyState.keyrollInitiate, List.map_cons, List.map_nil] at h
+        subst h
+        refine ⟨by intro e he; simp at he; rcases he with rfl | rfl <;> simp [Ev.onClass], ?_⟩
+        refine ⟨⟨?_, by simp [Rc.applyEv, hk, KeyState.apply, KeyState.applyPendingAdded], trivial⟩, ?_⟩
+        · intro c' hc'; rw [hk] at hc'; cases hc'; exact hkc
+        · intro rc' hrc'
+          exact ⟨⟨trivial, by simp [Rc.applyEv, KeyState.apply], trivial⟩, fun _ _ => trivial⟩
+  | pending _ => simp only [hk, Except.ok.injEq] at h; subst h; exact ⟨(by intro e he; cases he), trivial⟩
+  | rollPending _ _ => simp only [hk, Except.ok.injEq] at h; subst h; exact ⟨(by intro e he; cases he), trivial⟩
+  | rollNew _ _ => simp only [hk, Except.ok.injEq] at h; subst h; exact ⟨(by intro e he; cases he), trivial⟩
+  | rollOld _ _ => simp only [hk, Except.ok.injEq] at h; subst h; exact ⟨(by intro e he; cases he), trivial⟩
+
+theorem activateLoop_eq (na : Int) (l : List (Rcn × Rc)) :
+    activateLoop na l = forClasses (fun r rc => activateClass r rc na) l := by
+  induction l with
+  | nil => rfl
+  | cons p ps ih => simp only [activateLoop, forClasses, ih]; rfl
+
+theorem activateClass_ready (na : Int) (r : Rcn) (rc : Rc) (evs : List Ev)
+    (h : activateClass r rc na = .ok evs) : (∀ e ∈ evs, e.onClass r = true) ∧ RcReadySeq rc evs := by
+  unfold activateClass at h
+  cases hn : rc.keys.newKey with
+  | none => simp only [hn, Except.ok.injEq] at h; subst h; exact ⟨(by intro e he; cases he), trivial⟩
+  | some n =>
+    simp only [hn] at h
+    cases hk : rc.keys with
+    | rollNew n' c =>
+      cases ha : rc.keys.keyrollActivate with
+      | error e => simp [ha] at h
+      | ok kevs =>
+        simp only [ha] at h
+        cases hac : rc.certs.activateKey n.cert na with
+        | error e => simp [hac] at h
+        | ok upd =>
+          simp only [hac, Except.ok.injEq] at h; subst h
+          -- the key events are `[activated]`
+          have hkevs : kevs = [.activated] := by
+            rw [hk] at ha
+            simp only [KeyState.keyrollActivate] at ha
+            split at ha <;> cases ha
+            rfl
+          subst hkevs
+          have hrest : ∀ e ∈ renewal r rc .roa ++ renewal r rc .aspa ++
+              (if upd.isEmpty = true then [] else [Ev.childCerts r upd]) ++ renewal r rc .bgpsec,
+              e.isPayload = true ∧ e.rcn? = some r := by
+            intro e he
+            simp only [List.mem_append] at he
+            rcases he with ((he | he) | he) | he
+            · exact renewal_payload r rc .roa e he
+            · exact renewal_payload r rc .aspa e he
+            · split at he
+              · cases he
+              · simp only [List.mem_singleton] at he; subst he; exact ⟨rfl, rfl⟩
+            · exact renewal_payload r rc .bgpsec e he
+          simp only [List.map_cons, List.map_nil, List.cons_append, List.nil_append, List.append_assoc] at hrest ⊢
+          refine ⟨?_, ?_⟩
+          · intro e he
+            rcases List.mem_cons.mp he with rfl | he
+            · simp [Ev.onClass]
+            · exact isPayload_onClass (hrest e he).1 (hrest e he).2
+          · refine ⟨⟨trivial, by simp [Rc.applyEv, hk, KeyState.apply, KeyState.applyActivated], trivial⟩, ?_⟩
+            intro rc' hrc'
+            simp only [Rc.applyEv, hk, KeyState.apply, KeyState.applyActivated, Option.map_some,
+              Option.some.injEq] at hrc'
+            subst hrc'
+            exact rcReadySeq_payloads (by simp [KeyState.current]) (fun e he => (hrest e he).1)
+    | pending _ => rw [hk] at hn; simp [KeyState.newKey] at hn
+    | active _ => rw [hk] at hn; simp [KeyState.newKey] at hn
+    | rollPending _ _ => rw [hk] at hn; simp [KeyState.newKey] at hn
+    | rollOld _ _ => rw [hk] at hn; simp [KeyState.newKey] at hn
+
+/-! ## Key-roll commands -/
+
+theorem classes_get_of_mem {s : Ca} (hnd : (keys s.classes).Nodup) :
+    ∀ p ∈ s.classes, get s.classes p.1 = some p.2 :=
+  fun _ hp => get_of_mem_nodup hnd hp
+
+theorem ready_repoUpdated (s : Ca) : Ready s .repoUpdated := ⟨trivial, rfl, trivial⟩
+
+theorem readySeq_keyroll {s : Ca} (hnd : (keys s.classes).Nodup) {c : Cmd} {evs : List Ev}
+    (hc : match c with
+      | .keyrollInit _ | .keyrollActivate _ | .keyrollFinish _ | .repoUpdate _ | .dropClass _ => True
+      | _ => False)
+    (h : s.process c = .ok evs) : ReadySeq s evs := by
+  cases c with
+  | keyrollInit fresh =>
+    simp only [Ca.process] at h
+    split at h
+    · simp only [Except.ok.injEq] at h; subst h; trivial
+    · split at h
+      · cases h
+      · rw [keyrollInitLoop_eq] at h
+        exact readySeq_forClasses (initClass_ready fresh) hnd (classes_get_of_mem hnd) h
+  | keyrollActivate na =>
+    simp only [Ca.process] at h
+    rw [activateLoop_eq] at h
+    exact readySeq_forClasses (activateClass_ready na) hnd (classes_get_of_mem hnd) h
+  | keyrollFinish rcn =>
+    simp only [Ca.process] at h
+    cases hg : get s.classes rcn with
+    | none => simp [hg] at h
+    | some rc =>
+      simp only [hg] at h
+      cases hf : rc.keys.keyrollFinish with
+      | error e => simp [hf] at h
+      | ok e =>
+        simp only [hf, Except.ok.injEq] at h; subst h
+        cases hk : rc.keys with
+        | rollOld c o =>
+          rw [hk] at hf; simp only [KeyState.keyrollFinish, Except.ok.injEq] at hf; subst hf
+          refine readySeq_of_rc (r := rcn) (rc := rc) (by intro e he; simp at he; subst he; simp [Ev.onClass]) hg ?_
+          exact ⟨⟨trivial, by simp [Rc.applyEv, hk, KeyState.apply, KeyState.applyFinished], trivial⟩, fun _ _ => trivial⟩
+        | pending _ => rw [hk] at hf; simp [KeyState.keyrollFinish] at hf
+        | active _ => rw [hk] at hf; simp [KeyState.keyrollFinish] at hf
+        | rollPending _ _ => rw [hk] at hf; simp [KeyState.keyrollFinish] at hf
+        | rollNew _ _ => rw [hk] at hf; simp [KeyState.keyrollFinish] at hf
+  | repoUpdate fresh =>
+    simp only [Ca.process] at h
+    split at h
+    · simp only [Except.ok.injEq] at h; subst h
+      exact ⟨ready_repoUpdated s, fun _ _ => trivial⟩
+    · split at h
+      · cases h
+      · cases hl : keyrollInitLoop fresh s.classes with
+        | error e => simp [hl] at h
+        | ok evs1 =>
+          simp only [hl, Except.ok.injEq] at h; subst h
+          rw [keyrollInitLoop_eq] at hl
+          refine readySeq_append (readySeq_forClasses (initClass_ready fresh) hnd (classes_get_of_mem hnd) hl) ?_
+          intro s' _
+          exact ⟨ready_repoUpdated s', fun _ _ => trivial⟩
+  | dropClass rcn =>
+    simp only [Ca.process] at h
+    cases hg : get s.classes rcn with
+    | none => simp [hg] at h
+    | some rc =>
+      simp only [hg, Except.ok.injEq] at h; subst h
+      exact ⟨⟨trivial, rfl, trivial⟩, fun _ _ => trivial⟩
+  | _ => exact absurd hc (by simp)
+
+/-! ## Removing a parent -/
+
+theorem get_foldl_del {V : Type} (rs : List Rcn) (m : AMap Rcn V) (r : Rcn) :
+    get (rs.foldl del m) r = if r ∈ rs then none else get m r := by
+  induction rs generalizing m with
+  | nil => simp
+  | cons r0 rs ih =>
+    simp only [List.foldl_cons, ih, List.mem_cons, get_del]
+    by_cases h1 : r ∈ rs
+    · simp [h1]
+    · by_cases h0 : r0 = r
+      · simp [h0]
+      · have : ¬ r = r0 := fun h => h0 h.symm
+        simp [h1, h0, this]
+
+theorem applyAll_rcRemoved (s : Ca) (rs : List Rcn) :
+    s.applyAll (rs.map Ev.rcRemoved) = some { s with classes := rs.foldl del s.classes } := by
+  induction rs generalizing s with
+  | nil => rfl
+  | cons r rs ih =>
+    simp only [List.map_cons, Ca.applyAll, Ca.apply, Option.bind_some, List.foldl_cons]
+    exact ih _
+
+theorem readySeq_rcRemoved (s : Ca) (rs : List Rcn) : ReadySeq s (rs.map Ev.rcRemoved) := by
+  induction rs generalizing s with
+  | nil => trivial
+  | cons r rs ih => exact ⟨⟨trivial, rfl, trivial⟩, fun s' _ => ih s'⟩
+
+theorem readySeq_removeParent {s : Ca} {p : Handle} {evs : List Ev}
+    (h : s.process (.removeParent p) = .ok evs) : ReadySeq s evs := by
+  simp only [Ca.process] at h
+  split at h
+  · cases h
+  · simp only [Except.ok.injEq] at h; subst h
+    have hmap : (s.classes.filter fun q => decide (q.2.parent = p)).map (fun q => Ev.rcRemoved q.1) =
+        ((s.classes.filter fun q => decide (q.2.parent = p)).map (·.1)).map Ev.rcRemoved := by
+      simp [List.map_map]
+    rw [hmap]
+    refine readySeq_append (readySeq_rcRemoved _ _) ?_
+    intro s' hs'
+    rw [applyAll_rcRemoved] at hs'
+    simp only [Option.some.injEq] at hs'; subst hs'
+    refine ⟨⟨?_, rfl, trivial⟩, fun _ _ => trivial⟩
+    intro r rc hg
+    simp only [get_foldl_del] at hg
+    split at hg
+    · cases hg
+    · rename_i hnot
+      intro hpar
+      apply hnot
+      exact List.mem_map.mpr ⟨(r, rc), List.mem_filter.mpr ⟨mem_of_get hg, by simpa using hpar⟩, rfl⟩
+
+/-! ## Entitlements -/
+
+/-- Requests and unexpected-key notices for class `r`. -/
+def Ev.isEntEv (r : Rcn) : Ev → Bool
+  | .key r' (.requested _) => r' = r
+  | .key r' (.unexpected _) => r' = r
+  | _ => false
+
+theorem entitlementEvents_isEntEv (ks : KeyState) (ent : Entitlement) (now : Int) (r : Rcn) :
+    ∀ e ∈ (ks.entitlementEvents ent now).map (Ev.key r), e.isEntEv r = true := by
+  intro e he
+  obtain ⟨ke, hke, rfl⟩ := List.mem_map.mp he
+  simp only [KeyState.entitlementEvents, List.mem_append, List.mem_map] at hke
+  rcases hke with ⟨k, _, rfl⟩ | ⟨k, _, rfl⟩ <;> simp [Ev.isEntEv]
+
+/-- Class names only grow, `next_class_name` is what it was. -/
+structure Grow (s s' : Ca) : Prop where
+  cls : ∀ r, (get s.classes r).isSome = true → (get s'.classes r).isSome = true
+  next : s'.nextClass = s.nextClass
+
+theorem Grow.refl (s : Ca) : Grow s s := ⟨fun _ h => h, rfl⟩
+
+theorem Grow.trans {a b c : Ca} (h1 : Grow a b) (h2 : Grow b c) : Grow a c :=
+  ⟨fun r h => h2.cls r (h1.cls r h), h2.next.trans h1.next⟩
+
+theorem entEv_step {s : Ca} {r : Rcn} {e : Ev} (he : e.isEntEv r = true)
+    (hex : (get s.classes r).isSome = true) :
+    Ready s e ∧ ∀ s', s.apply e = some s' → Grow s s' := by
+  cases e with
+  | key r' ke =>
+    cases ke with
+    | requested k =>
+      simp only [Ev.isEntEv, decide_eq_true_eq] at he; subst he
+      cases hg : get s.classes r' with
+      | none => simp [hg] at hex
+      | some rc =>
+        refine ⟨⟨trivial, by simp [Ca.apply, Ca.withClass, hg, KeyState.apply], trivial⟩, ?_⟩
+        intro s' hs'
+        simp only [Ca.apply, Ca.withClass, hg, KeyState.apply, Option.map_some, Option.some.injEq] at hs'
+        subst hs'
+        refine ⟨?_, rfl⟩
+        intro r2 h2
+        simp only [get_set]
+        split <;> simp_all
+    | unexpected k =>
+      refine ⟨⟨trivial, rfl, trivial⟩, ?_⟩
+      intro s' hs'
+      simp only [Ca.apply, Option.some.injEq] at hs'; subst hs'
+      exact Grow.refl s
+    | _ => simp [Ev.isEntEv] at he
+  | _ => simp [Ev.isEntEv] at he
+
+theorem readySeq_entEvs {s : Ca} {r : Rcn} {evs : List Ev} (he : ∀ e ∈ evs, e.isEntEv r = true)
+    (hex : (get s.classes r).isSome = true) :
+    ReadySeq s evs ∧ ∀ s', s.applyAll evs = some s' → Grow s s' := by
+  induction evs generalizing s with
+  | nil =>
+    refine ⟨trivial, ?_⟩
+    intro s' hs'; simp only [Ca.applyAll, Option.some.injEq] at hs'; subst hs'; exact Grow.refl s
+  | cons e es ih =>
+    obtain ⟨hr, hg⟩ := entEv_step (he e (List.mem_cons_self ..)) hex
+    refine ⟨⟨hr, ?_⟩, ?_⟩
+    · intro s' hs'
+      exact (ih (fun e' he' => he e' (List.mem_cons_of_mem _ he')) ((hg s' hs').cls r hex)).1
+    · intro s' hs'
+      simp only [Ca.applyAll] at hs'
+      cases ha : s.apply e with
+      | none => simp [ha] at hs'
+      | some s1 =>
+        simp only [ha, Option.bind_some] at hs'
+        exact (hg s1 ha).trans
+          ((ih (fun e' he' => he e' (List.mem_cons_of_mem _ he')) ((hg s1 ha).cls r hex)).2 s' hs')
+
+/-- The loop of `process_update_entitlements` over the entitlements, from any state in which
+the classes the loop found in the original state still exist and whose `next_class_name` is the
+loop's counter. -/
+theorem readySeq_entitlementLoop {s : Ca} {p : Handle} {now : Int} {ents : List Entitlement}
+    {next : Nat} {fresh : List KeyId} {evs : List Ev} {s1 : Ca}
+    (hnext : s1.nextClass = next)
+    (hfound : ∀ ent ∈ ents, ∀ q, s.findParentRc p ent.rcn = some q → (get s1.classes q.1).isSome = true)
+    (h : entitlementLoop s p now ents next fresh = .ok evs) : ReadySeq s1 evs := by
+  induction ents generalizing next fresh evs s1 with
+  | nil => simp only [entitlementLoop, Except.ok.injEq] at h; subst h; trivial
+  | cons ent ents ih =>
+    simp only [entitlementLoop] at h
+    cases hf : s.findParentRc p ent.rcn with
+    | some q =>
+      obtain ⟨rcn, rc⟩ := q
+      simp only [hf] at h
+      split at h
+      · cases h
+      · cases hrest : entitlementLoop s p now ents next fresh with
+        | error e => simp [hrest] at h
+        | ok rest =>
+          simp only [hrest, Except.ok.injEq] at h; subst h
+          have hex := hfound ent (List.mem_cons_self ..) (rcn, rc) hf
+          obtain ⟨hrs, hgrow⟩ := readySeq_entEvs (entitlementEvents_isEntEv rc.keys ent now rcn) hex
+          refine readySeq_append hrs ?_
+          intro s' hs'
+          have hg := hgrow s' hs'
+          refine ih (hg.next.trans hnext) ?_ hrest
+          intro ent' hent' q hq
+          exact hg.cls _ (hfound ent' (List.mem_cons_of_mem _ hent') q hq)
+    | none =>
+      simp only [hf] at h
+      cases fresh with
+      | nil => simp at h
+      | cons k fresh' =>
+        simp only at h
+        split at h
+        · cases h
+        · cases hrest : entitlementLoop s p now ents (next + 1) fresh' with
+          | error e => simp [hrest] at h
+          | ok rest =>
+            simp only [hrest, Except.ok.injEq] at h; subst h
+            refine ⟨⟨hnext.symm, rfl, trivial⟩, ?_⟩
+            intro s2 hs2
+            simp only [Ca.apply, Option.some.injEq] at hs2; subst hs2
+            have hex2 : (get (set s1.classes next (Rc.create p ent.rcn k)) next).isSome = true := by
+              simp [get_set_self]
+            obtain ⟨hrs, hgrow⟩ := readySeq_entEvs
+              (s := { s1 with nextClass := s1.nextClass + 1, classes := set s1.classes next (Rc.create p ent.rcn k) })
+              (entitlementEvents_isEntEv (KeyState.pending ⟨k, false⟩) ent now next) hex2
+            refine readySeq_append hrs ?_
+            intro s' hs'
+            have hg := hgrow s' hs'
+            refine ih (by rw [hg.next]; simp [hnext]) ?_ hrest
+            intro ent' hent' q hq
+            apply hg.cls
+            have := hfound ent' (List.mem_cons_of_mem _ hent') q hq
+            simp only [get_set]
+            split <;> simp_all
+
+theorem readySeq_updateEntitlements {s : Ca} (hnd : (keys s.classes).Nodup) {p : Handle}
+    {ents : List Entitlement} {now : Int} {fresh : List KeyId} {evs : List Ev}
+    (h : s.process (.updateEntitlements p ents now fresh) = .ok evs) : ReadySeq s evs := by
+  simp only [Ca.process] at h
+  cases hl : entitlementLoop s p now ents s.nextClass fresh with
+  | error e => simp [hl] at h
+  | ok evs1 =>
+    simp only [hl, Except.ok.injEq] at h; subst h
+    have hmap : ∀ (l : List (Rcn × Rc)), l.map (fun q => Ev.rcRemoved q.1) = (l.map (·.1)).map Ev.rcRemoved := by
+      intro l; simp [List.map_map]
+    rw [hmap]
+    refine readySeq_append (readySeq_rcRemoved _ _) ?_
+    intro s' hs'
+    rw [applyAll_rcRemoved] at hs'
+    simp only [Option.some.injEq] at hs'; subst hs'
+    refine readySeq_entitlementLoop rfl ?_ hl
+    intro ent hent q hq
+    -- the class found for an entitlement is not one of the removed ones
+    simp only [Ca.findParentRc] at hq
+    have hmem := List.mem_of_find?_eq_some hq
+    have hprop := List.find?_some hq
+    simp only [decide_eq_true_eq] at hprop
+    simp only [get_foldl_del]
+    split
+    · rename_i hin
+      obtain ⟨q', hq', hq1⟩ := List.mem_map.mp hin
+      simp only [List.mem_filter, Bool.and_eq_true, decide_eq_true_eq, Bool.not_eq_true',
+        Bool.decide_and] at hq'
+      -- same name, so the same record
+      have h1 := get_of_mem_nodup hnd hq'.1
+      have h2 := get_of_mem_nodup hnd hmem
+      rw [hq1] at h1
+      rw [h2] at h1
+      have heq : q.2 = q'.2 := by simpa using h1
+      have : ent.rcn ∈ ents.map (·.rcn) := List.mem_map.mpr ⟨ent, hent, rfl⟩
+      have hnot := hq'.2.2
+      rw [← hprop.2, heq] at this
+      simp_all
+    · rw [get_of_mem_nodup hnd hmem]; rfl
+
+/-! ## All commands -/
+
+/-- The condition under which a revocation request emits applicable events: the class the
+child's name is translated to exists and has a current key (not so on this tree when a
+class-name mapping points to a missing class, F-C04-1). -/
+def RevokeOk (s : Ca) : Cmd → Prop
+  | .childRevokeKey ch childRcn _ =>
+    ∀ cd, get s.children ch = some cd → (get s.classes childRcn).isSome = true →
+      ∃ rc, get s.classes (cd.nameInParent childRcn) = some rc ∧ rc.keys.current.isSome = true
+  | _ => True
+
+theorem process_readySeq {s : Sys} (hinv : Inv s) {c : Cmd} {evs : List Ev} (hok : RevokeOk s.ca c)
+    (h : s.ca.process c = .ok evs) : ReadySeq s.ca evs := by
+  have hnd := hinv.core.nodup
+  have hu := hinv.used
+  cases c with
+  | childAdd ch res => exact readySeq_childCmd hu trivial h
+  | childUpdateResources ch res => exact readySeq_childCmd hu trivial h
+  | childMapping ch n m => exact readySeq_childCmd hu trivial h
+  | childCertify ch r k l na => exact readySeq_childCmd hu trivial h
+  | childRevokeKey ch r k => exact readySeq_childCmd hu hok h
+  | childRemove ch => exact readySeq_childCmd hu trivial h
+  | childSuspend ch => exact readySeq_childCmd hu trivial h
+  | childUnsuspend ch now1d na => exact readySeq_childCmd hu trivial h
+  | addParent p => exact readySeq_childCmd hu trivial h
+  | config upds => exact readySeq_childCmd hu trivial h
+  | removeParent p => exact readySeq_removeParent h
+  | updateEntitlements p ents now fresh => exact readySeq_updateEntitlements hnd h
+  | updateRcvdCert r k cert na prods => exact readySeq_updateRcvdCert h
+  | dropClass r => exact readySeq_keyroll hnd trivial h
+  | keyrollInit fresh => exact readySeq_keyroll hnd trivial h
+  | keyrollActivate na => exact readySeq_keyroll hnd trivial h
+  | keyrollFinish r => exact readySeq_keyroll hnd trivial h
+  | repoUpdate fresh => exact readySeq_keyroll hnd trivial h
+
+theorem exec_stored_iff {s s' : Sys} {c : Cmd} {evs : List Ev} :
+    s.exec c = .stored evs s' ↔ s.ca.process c = .ok evs ∧ s.runEvs evs = some s' := by
+  unfold Sys.exec
+  cases hp : s.ca.process c with
+  | error e => simp
+  | ok evs0 =>
+    simp only
+    cases ha : s.ca.applyAll evs0 with
+    | none =>
+      simp only [Except.ok.injEq]
+      constructor
+      · intro h; cases h
+      · rintro ⟨rfl, hr⟩
+        obtain ⟨ca', o'⟩ := s'
+        rw [runEvs_some_iff] at hr
+        rw [ha] at hr; cases hr.1
+    | some ca' =>
+      simp only
+      cases ho : s.objs.stepAll evs0 with
+      | error e =>
+        simp only [Except.ok.injEq]
+        constructor
+        · intro h; cases h
+        · rintro ⟨rfl, hr⟩
+          obtain ⟨ca'', o'⟩ := s'
+          rw [runEvs_some_iff] at hr
+          rw [ho] at hr; cases hr.2
+      | ok o' =>
+        simp only [Outcome.stored.injEq, Except.ok.injEq]
+        constructor
+        · rintro ⟨rfl, rfl⟩
+          exact ⟨rfl, runEvs_some_iff.mpr ⟨ha, ho⟩⟩
+        · rintro ⟨rfl, hr⟩
+          obtain ⟨ca'', o''⟩ := s'
+          obtain ⟨h1, h2⟩ := runEvs_some_iff.mp hr
+          rw [ha] at h1; rw [ho] at h2
+          cases h1; cases h2
+          exact ⟨rfl, rfl⟩
+
+/-- A revocation request outside `RevokeOk` is never stored: either `apply` panics (class
+missing) or the listener refuses (class still pending). -/
+theorem bad_revoke_not_stored {s : Sys} (hinv : Inv s) {c : Cmd} (hbad : ¬ RevokeOk s.ca c)
+    {evs : List Ev} {s' : Sys} : s.exec c ≠ .stored evs s' := by
+  intro hst
+  obtain ⟨hp, hr⟩ := exec_stored_iff.mp hst
+  cases c with
+  | childRevokeKey ch childRcn ki =>
+    simp only [RevokeOk] at hbad
+    simp only [Ca.process] at hp
+    apply hbad
+    intro cd hcd hcls
+    simp only [hcls, Bool.not_true, Bool.false_eq_true, if_false, hcd] at hp
+    split at hp
+    · cases hp
+    · simp only [Except.ok.injEq] at hp; subst hp
+      obtain ⟨ca', o'⟩ := s'
+      obtain ⟨ha, ho⟩ := runEvs_some_iff.mp hr
+      -- the aggregate applied `ChildKeyRevoked`: the class exists
+      simp only [Ca.applyAll, Ca.apply] at ha
+      cases hw : s.ca.withClass (cd.nameInParent childRcn)
+          (fun rc => some { rc with certs := rc.certs.removeRevoked ki }) with
+      | none => simp [hw] at ha
+      | some s1 =>
+        obtain ⟨rc, rc', hg, _, _⟩ := Ca.withClass_some hw
+        refine ⟨rc, hg, ?_⟩
+        -- the listener accepted `ChildCertificatesUpdated`: there is an object class, so the
+        -- class is not pending
+        simp only [Objs.stepAll, Objs.step] at ho
+        cases hgo : get s.objs (cd.nameInParent childRcn) with
+        | none => simp [Objs.withClass, hgo] at ho
+        | some ok =>
+          have hc := hinv.core.cls (cd.nameInParent childRcn)
+          rw [hg, hgo] at hc
+          obtain ⟨hm, _, _⟩ := hc
+          cases hk : rc.keys with
+          | pending p => rw [hk] at hm; have := ksMirror_pending.mp hm; cases this
+          | _ => simp [KeyState.current]
+  | _ => exact hbad trivial
+
 end KM.CaK
